@@ -274,7 +274,7 @@ pub fn run(ctx: &RunCtx) -> i32 {
     let mut failure: Option<Failure> = None;
     // (a)
     {
-        let (s, f) = run_sharded(ctx, "hist", ctx.tier.pick(2500, 50_000), || hist_strategy((hp.cfgs)(), hp.max_ops, hp.max_prepop), |case, st, counting| {
+        let (s, f) = run_sharded(ctx, "hist", ctx.tier.pick(2500, 200_000), || hist_strategy((hp.cfgs)(), hp.max_ops, hp.max_prepop), |case, st, counting| {
             let r = run_hist(case, &hp.opts, &*hp.exclude, st);
             match r {
                 Ok(res) => {
@@ -299,7 +299,7 @@ pub fn run(ctx: &RunCtx) -> i32 {
     }
     // (b)
     if failure.is_none() {
-        let (s, f) = run_sharded(ctx, "hr", ctx.tier.pick(6000, 80_000), super::c14::read_case, |c, st, counting| {
+        let (s, f) = run_sharded(ctx, "hr", ctx.tier.pick(6000, 300_000), super::c14::read_case, |c, st, counting| {
             let mut tmp = Stats::default();
             let r = only_panics(super::c14::test_read(c, &mut tmp, counting));
             if counting {
@@ -314,7 +314,7 @@ pub fn run(ctx: &RunCtx) -> i32 {
         failure = f;
     }
     if failure.is_none() {
-        let (s, f) = run_sharded(ctx, "hw", ctx.tier.pick(3000, 40_000), super::c14::write_case, |c, st, counting| {
+        let (s, f) = run_sharded(ctx, "hw", ctx.tier.pick(3000, 150_000), super::c14::write_case, |c, st, counting| {
             let mut tmp = Stats::default();
             let r = only_panics(super::c14::test_write(c, &mut tmp, counting));
             if counting {
@@ -327,7 +327,7 @@ pub fn run(ctx: &RunCtx) -> i32 {
     }
     // (c)
     if failure.is_none() {
-        let (s, f) = run_sharded(ctx, "stale", ctx.tier.pick(3000, 40_000), stale_strategy, test_stale);
+        let (s, f) = run_sharded(ctx, "stale", ctx.tier.pick(3000, 150_000), stale_strategy, test_stale);
         stats.merge(s);
         failure = f;
     }
@@ -346,7 +346,7 @@ pub fn run(ctx: &RunCtx) -> i32 {
     }
     // (e)
     if failure.is_none() {
-        let (s, f) = run_sharded(ctx, "hostile", ctx.tier.pick(600, 8000), hostile_strategy, test_hostile);
+        let (s, f) = run_sharded(ctx, "hostile", ctx.tier.pick(600, 30_000), hostile_strategy, test_hostile);
         stats.merge(s);
         failure = f;
     }
